@@ -23,6 +23,7 @@ type Program struct {
 	initOrd []*ssa.Package // immudb packages in dependency order
 
 	hasherType types.Type
+	opaqueType types.Type
 	errStrT    types.Type
 	wrapErrT   types.Type
 	errIface   *types.Interface
@@ -90,6 +91,7 @@ func Load(repo string, overlay map[string][]byte, patterns ...string) (*Program,
 	p.SSAPkgs = spkgs
 	p.Fset = prog.Fset
 	p.hasherType = types.NewPointer(types.NewNamed(types.NewTypeName(token.NoPos, nil, "symHasher", nil), types.NewStruct(nil, nil), nil))
+	p.opaqueType = types.NewPointer(types.NewNamed(types.NewTypeName(token.NoPos, nil, "symOpaque", nil), types.NewStruct(nil, nil), nil))
 	if ep := prog.ImportedPackage("errors"); ep != nil {
 		if t := ep.Type("errorString"); t != nil {
 			p.errStrT = t.Type()
